@@ -83,9 +83,21 @@ class SeqProduct(explorer.Product):
             st["forked"] = True  # part of the state key: sharing between the two objects is invisible to a snapshot
             return None
         if op[0] == "set_broken":
+            # an implementation may read the value when the start is installed: then the update itself fails and
+            # nothing has changed; otherwise the failure shows at the next request
+            raised = []
             for side in ("a", "b"):
-                st[side].set_sequence_start(_Broken())
-            st["broken"] = True
+                try:
+                    st[side].set_sequence_start(_Broken())
+                    raised.append(False)
+                except RuntimeError:
+                    raised.append(True)
+                except Exception as e:  # noqa: BLE001
+                    return f"set_sequence_start with an unready start raised {type(e).__name__}"
+            if raised[0] != raised[1]:
+                return "the two peers reacted differently to an unready start"
+            st["broken"] = not raised[0]
+            st["broken_rejected"] = raised[0]
             return None
         if op[0] == "next" and st.get("broken"):
             outcomes = []
